@@ -190,6 +190,7 @@ func (c *collection) CreateIndex(
 	// The collection keeps its indexes in memory. If the index is not committed, the in-memory
 	// state must be rolled back together with the transaction.
 	restore := c.snapshotIndexes()
+	c.resyncIndexesUnlessCommitted(ctx, txn)
 
 	err = c.reloadIndexes(ctx)
 	if err != nil {
@@ -208,6 +209,27 @@ func (c *collection) CreateIndex(
 		return client.IndexDescription{}, err
 	}
 	return index.Description(), nil
+}
+
+// resyncIndexesUnlessCommitted makes the in-memory indexes of this handle follow the fate of the
+// given transaction: when index DDL runs inside a transaction owned by the caller, success of the
+// call does not mean that the change will ever be committed. If the transaction is discarded or
+// its commit fails, the handle is brought back to what the store contains.
+func (c *collection) resyncIndexesUnlessCommitted(ctx context.Context, txn datastore.Txn) {
+	resync := func() {
+		ctx := datastore.CtxSetTxn(context.WithoutCancel(ctx), nil)
+		ctx, txn, err := ensureContextTxn(ctx, c.db, true)
+		if err != nil {
+			log.ErrorContextE(ctx, "Failed to reload the indexes of the collection", err)
+			return
+		}
+		defer txn.Discard(ctx)
+		if err := c.reloadIndexes(ctx); err != nil {
+			log.ErrorContextE(ctx, "Failed to reload the indexes of the collection", err)
+		}
+	}
+	txn.OnDiscard(resync)
+	txn.OnError(resync)
 }
 
 // snapshotIndexes returns a function that resets the in-memory indexes of the collection
@@ -421,6 +443,7 @@ func (c *collection) DropIndex(ctx context.Context, indexName string) error {
 
 	// If the index is not dropped in the store, it must remain in the in-memory state.
 	restore := c.snapshotIndexes()
+	c.resyncIndexesUnlessCommitted(ctx, txn)
 
 	err = c.reloadIndexes(ctx)
 	if err != nil {
